@@ -125,10 +125,17 @@ CLAIMED.update({
     "C11": _c("Histories of derivations, assignments (7 key kinds x scalar/array/dask values), ufunc out=, computes: after every step the target "
               "equals the NumPy result, every other live collection its value at derivation, the source ndarray its original.", "5/C11",
               _TB + "identity-returning derivations count as the target (DESIGN F9).", "mutation-history exploration (Coq history model in progress)"),
-    "C12": _c("Coq theorems about a Gallina model of normalize_index / replace_ellipsis / check_index / SliceSlicesIntegers layer and chunks "
-              "(coq/Properties/C12.v), built on C13's per-axis theorems; " + _TIE + "; fancy paths (lists, masks, dask indices, vindex, "
-              "blocks) by value against NumPy.", "5/C12", _TB + "no array-value model: the N-d statement is about source positions and the block grid.",
-              "Coq proof over Gallina model + differential correspondence"),
+    "C12": _c("Coq theorems (coq/Properties/C12.v, 49 obligations) about a Gallina model of normalize_index / replace_ellipsis / check_index / "
+              "SliceSlicesIntegers layer and chunks, built on C13's per-axis theorems, AND of one-axis integer-list indexing / da.take "
+              "(TakeModel.v: bounds check + negative entries, route error / empty slice / identity / Shuffle, grouping into output chunks via "
+              "Shuffle._new_chunks, per output block the ordered (input block, local offset) pairs, split tasks): normalisation accepts exactly "
+              "NumPy's range, the plan read in output order is [arr[i] for i in idx] for ALL chunkings (zero-size chunks incl.) and index lists, "
+              "pairs in bounds, advertised chunks = group sizes summing to len(idx), each output chunk between 1 and the largest input chunk; "
+              "'each group ends in one chunk' (shuffle docstring) refuted. " + _TIE + " (basic: layer interpreted; take: route, indexer, "
+              "_new_chunks, chunks and the plan read back from the real Shuffle layer compared exactly in Coq); other fancy paths (masks, dask "
+              "indices, vindex, blocks) by value against NumPy.", "49/C12", _TB + "no array-value model for masks / dask-array indices / "
+              "vindex; the merge step's argsort of the take layer is replayed in the harness, not modelled.",
+              "Coq proof over Gallina models (basic indexing + take) + exact plan correspondence"),
     "C20": _c("A recording block function placed by map_blocks between generated programs below and 0-3 ops above: every invocation's "
               "chunk-location/array-location/chunk-shape/shape/num-chunks and received block shape compared with the layout at call time.",
               "5/C20", _TB, "instrumented user function over generated programs (Coq block_info model in progress)"),
